@@ -21,8 +21,8 @@ def instances(tier):
                             'bound': '%s server: start(true), %d client connection(s)%s, stop(true), destruction; every schedule with at most %d preemptions (free choice at blocking points)'
                             % (mode, n, ' that close right after sending' if early else '', B)})
     for seq in (0, 1):
-        for scen, n, B, what in ((1, 1, 2, 'a client that connects, sends nothing and closes'), (1, 2, 1, 'two clients that connect, send nothing and close'), (2, 1, 2, 'serve() keeps a copy of its Socket'), (3, 1, 2, 'stop(false), later stop(true) while serve() still waits for its client')):
-            if seq and scen == 3: continue
+        for scen, n, B, what in ((1, 1, 2, 'a client that connects, sends nothing and closes'), (1, 2, 1, 'two clients that connect, send nothing and close'), (2, 1, 2, 'serve() keeps a copy of its Socket'), (3, 1, 2, 'stop(false), later stop(true) while serve() still waits for its client'), (4, 1, 2, 'accept loop run by a thread of the application (blocking start()), stop(true) from the controlling thread')):
+            if seq and scen in (3,): continue
             out.append({'entry': 'h_server', 'params': [B, n, seq, 0, scen], 'bound': '%s server, %s; at most %d preemptions' % ('sequential' if seq else 'concurrent', what, B)})
     return out
 
